@@ -335,8 +335,13 @@ fn content_rgb(acc: &mut Acc, idx: u64, from_xyb: bool, t: TC, p: CP) {
         }
     };
     let cfg = cfg_full(10, false, (0, 0), MC::BT709, TC::BT1886, CP::BT709);
-    let a = planes_of(&Yuv::<u16>::try_from((back, cfg)).unwrap());
-    let b = planes_of(&Yuv::<u16>::try_from((lin(), cfg)).unwrap());
+    let (a, b) = match guarded(|| (planes_of(&Yuv::<u16>::try_from((back, cfg)).unwrap()), planes_of(&Yuv::<u16>::try_from((lin(), cfg)).unwrap()))) {
+        Ok(x) => x,
+        Err(pn) => {
+            acc.violation(idx, format!("conversion-panic into-rgb {}", panic_site(&pn)), pn, case());
+            return;
+        }
+    };
     let mut worst = 0.0f64;
     for pl in 0..3 {
         for i in 0..a[pl].len() {
